@@ -173,7 +173,7 @@ struct Sim {
       case OP_M_ASSIGN: case OP_M_ASSIGN_EIGEN: case OP_M_MOVE_ASSIGN: case OP_M_COEFFWRITE: case OP_COEFFS:
       case OP_TM_ASSIGN: case OP_TM_ASSIGN_EIGEN: case OP_TM_COEFFWRITE: case OP_TM_SETZERO: case OP_TM_STREAM:
       case OP_T_NEG: case OP_DATAPTR: case OP_HAT: case OP_ZERO: case OP_GENERATOR: case OP_T_GENERATOR_M:
-      case OP_M_SETTERS: case OP_TM_BLOCKSET: case OP_T_ACCESSORS:
+      case OP_M_SETTERS: case OP_TM_BLOCKSET: case OP_T_ACCESSORS: case OP_CONSTRUCT:
         return T_EXACT;
       case OP_INTERP_SLERP: case OP_INTERP_CUBIC: case OP_INTERP_SMOOTH: case OP_AVG_BIINV: case OP_AVG: case OP_AVG_FL:
       case OP_AVG_FR: case OP_DECASTELJAU:
@@ -371,6 +371,7 @@ struct Sim {
         if (inf.nout) s.op.mask = (uint8_t)rng.below(1u << inf.nout);
         if (rng.chance(0.15) && (op == OP_INTERP_SLERP || op == OP_TM_PLUSEQ || op == OP_TM_MINUSEQ)) s.op.variant |= V_ALT;
         if (op == OP_M_MOVE_ASSIGN && rng.chance(0.6)) { s.op.variant |= V_ALT; s.op.kb = K_MAP; }
+        if (rng.chance(0.3)) s.op.variant |= V_FRESH;
         if (rng.chance(0.3) && op == OP_LOG && (vt->caps & (CAP_ASSO3 | CAP_BUNDLE))) s.op.variant |= V_SUB;
         ValKind vk = op_value_kind(op);
         if (inf.cls != C_MUT_E && inf.cls != C_MUT_T && rng.chance(0.4)) {
